@@ -6,7 +6,8 @@
       for _, x := range c.F { PutUint… }        c.F = make([]T, c.G); for i < int(c.G) { c.F[i] = … }   (counted)
                                                 for i := range c.F { c.F[i] = … }                         (fixed array)
       for _, x := range c.F { x.Marshal() }     c.F = []T{}; for i < int(c.G) { guard; x.Unmarshal(blk[off:off+size]); … }
-      if c.F != 0 { PutUint…(c.F) }             if WordCount == k { guard; c.F = …; offset += w }        (optional, trailing)
+      if c.F != 0 { PutUint…(c.F) }             c.F = 0; if WordCount == k { guard; c.F = …; offset += w } (optional, trailing)
+      if c.F != [n]T{0,…} { range c.F }        c.F = [3]T{0,0,0}; if WordCount == k { guard; c.F = [3]T{…}; offset += 12 } (optional array)
       append(raw, c.Pad...)                     padLen := …; if padLen%2 == 1 { padLen++ } / if (len(P)+3)%2 == 1 { padLen = 1 };
                                                 c.Pad = blk[offset:offset+padLen]                         (padding arithmetic)
 
@@ -34,6 +35,7 @@ def layoutML : List MStmt → Option (List Slot)
   | .forInt b w e f :: r => (layoutML r).map (.ints b w e f none :: ·)
   | .forSub b f t :: r => (layoutML r).map (.subs b f t none none :: ·)
   | .ifNonZero f [.int b w e g] :: r => if f = g then (layoutML r).map (.opt b w e f none :: ·) else none
+  | .ifNonZeroArr f [.forInt b w e g] :: r => if f = g then (layoutML r).map (.optInts b w e f 0 none :: ·) else none
   | _ :: _ => none
 
 /-- `layoutU` with the loops: a counted integer loop must follow the `make` of the same list with the same
@@ -58,8 +60,10 @@ def layoutUL : List UStmt → Option (List Slot)
   | .clear f :: .forCountSub b f' g t size :: r =>
     if f = f' then (layoutUL r).map (.subs b f t (some g) (some size) :: ·) else none
   | [.readBytes b f n] => some [.bytes b f (some n)]
-  | .ifWordCount k [.guard b (.lit n), .readInt b' w e f, .advance (.lit m)] :: r =>
-    if b = b' ∧ n = w ∧ m = w then (layoutUL r).map (.opt b w e f (some k) :: ·) else none
+  | .zeroInt f0 :: .ifWordCount k [.guard b (.lit n), .readInt b' w e f, .advance (.lit m)] :: r =>
+    if f0 = f ∧ b = b' ∧ n = w ∧ m = w then (layoutUL r).map (.opt b w e f (some k) :: ·) else none
+  | .zeroInts f0 n :: .ifWordCount k [.guard b (.lit g), .readArr3 b' f, .advance (.lit m)] :: r =>
+    if f0 = f ∧ b = b' ∧ n = 3 ∧ g = 12 ∧ m = 12 then (layoutUL r).map (.optInts b 4 .le f 3 (some k) :: ·) else none
   | .setPad _ :: r => layoutUL r
   | .padRoundUp :: r => layoutUL r
   | .padIfPOdd :: r => layoutUL r
@@ -103,7 +107,9 @@ def okUL (hp hd : Bool) : UPos → List String → List UStmt → Bool
   | pos, seen, .clear f :: .forCountSub b _ g t size :: r =>
     pos.canRead b && seen.contains g && fixedSize t == some size && okUL hp hd (pos.read b) (f :: seen) r
   | pos, seen, [.readBytes b _ n] => pos.canRead b && n.closed seen
-  | pos, seen, .ifWordCount _ [.guard _ _, .readInt b _ _ f, .advance _] :: r =>
+  | pos, seen, .zeroInt _ :: .ifWordCount _ [.guard _ _, .readInt b _ _ f, .advance _] :: r =>
+    pos.canRead b && okUL hp hd (pos.read b) (f :: seen) r
+  | pos, seen, .zeroInts _ _ :: .ifWordCount _ [.guard _ _, .readArr3 b f, .advance _] :: r =>
     pos.canRead b && okUL hp hd (pos.read b) (f :: seen) r
   | pos, seen, .setPad e :: r => e.closed seen && okUL hp hd pos seen r
   | pos, seen, .padRoundUp :: r => okUL hp hd pos seen r
@@ -115,42 +121,42 @@ def Cmd.subTypesL (c : Cmd) : List String :=
   c.marshal.filterMap (fun s => match s with | .sub _ _ t => some t | .forSub _ _ t => some t | _ => none)
 
 /-- what an unmarshal program of the loop fragment takes from the receiving structure instead of from the wire:
-    `(F, true)` — the fixed array `c.F` is filled in place (`for i := range c.F`), the loop runs to the length the
-    receiver's array has; `(F, false)` — the optional integer `c.F` is only assigned when the word count says it is
-    on the wire, otherwise the receiver keeps what it had -/
-def recvFields : List UStmt → List (String × Bool)
+    the fixed arrays `c.F` filled in place (`for i := range c.F`): the loop runs to the length the receiver's array
+    has.  (An optional integer is not among them: the fragment only admits it behind `c.F = 0`, so the receiver's old
+    value never survives.) -/
+def recvFields : List UStmt → List String
   | [] => []
-  | .forRangeInt _ _ _ f :: r => (f, true) :: recvFields r
-  | .ifWordCount _ [.guard _ _, .readInt _ _ _ f, .advance _] :: r => (f, false) :: recvFields r
+  | .forRangeInt _ _ _ f :: r => f :: recvFields r
   | _ :: r => recvFields r
 
 /-- the receiving structure fits the sender's values where Unmarshal relies on it: a fixed array has the length of
-    the sender's (in Go: both have the declared length `[n]T`), an optional integer the sender holds as zero is zero
-    (in Go: a structure fresh from its constructor) -/
+    the sender's (in Go: both have the declared length `[n]T`; the model's environments are untyped) -/
 def receiverFits (c : Cmd) (env0 env : Env) : Bool :=
-  match bodyU c with
+  match bodyN c with
   | none => true
   | some body =>
-    (recvFields body).all (fun p =>
-      if p.2 then
-        (match env0.get p.1, env.get p.1 with
-          | some (.ns a), some (.ns b) => a.length == b.length
-          | _, _ => false)
-      else
-        (match env.get p.1 with
-          | some (.n 0) => env0.get p.1 == some (.n 0)
-          | _ => true))
+    (recvFields body).all (fun f =>
+      match env0.get f, env.get f with
+      | some (.ns a), some (.ns b) => a.length == b.length
+      | _, _ => false)
 
-/-- "WordCount tells which": an optional integer is the last parameter slot, everything in front of it has a
-    fixed width (`n` bytes so far), and the word count `k` under which Unmarshal reads it is the one the block has
+/-- "WordCount tells which": an optional integer (or array of integers) is the last parameter slot, everything in
+    front of it has a fixed width (`n` bytes so far: integers, and nested values of a `fixedSize` type), and the word count `k` under which Unmarshal reads it is the one the block has
     with the field and not the one it has without (`andxWords`: the two AndX words counted in front) -/
 def optTrailing (andx : Bool) : List Slot → Nat → Bool
   | [], _ => true
   | [.opt _ w _ _ (some k)], n => decide (andxWords andx + (n + w + 1) / 2 = k) && decide (andxWords andx + (n + 1) / 2 ≠ k)
   | .opt .. :: _, _ => false
+  | [.optInts _ w _ _ cnt (some k)], n =>
+    decide (andxWords andx + (n + w * cnt + 1) / 2 = k) && decide (andxWords andx + (n + 1) / 2 ≠ k)
+  | .optInts .. :: _, _ => false
   | .int _ w _ _ :: r, n => optTrailing andx r (n + w)
   | .u8 _ _ :: r, n => optTrailing andx r (n + 1)
-  | _ :: r, _ => r.all (fun sl => match sl with | .opt .. => false | _ => true)
+  | .sub _ _ t _ :: r, n =>
+    match fixedSize t with
+    | some k => optTrailing andx r (n + k)      -- a nested value whose encoding has the same length for every value
+    | none => r.all (fun sl => match sl with | .opt .. | .optInts .. => false | _ => true)
+  | _ :: r, _ => r.all (fun sl => match sl with | .opt .. | .optInts .. => false | _ => true)
 
 /-- C04 static predicate for the loop fragment: `Mirror` with `layoutML` / `layoutUL` / `okUL` in place of
     `layoutM` / `layoutU` / `okU` — both programs are straight-line except for loops over list fields, describe the
@@ -158,10 +164,10 @@ def optTrailing (andx : Bool) : List Slot → Nat → Bool
     nested values of the same type), and the side conditions of `Mirror` hold; a counted loop runs to a count
     field read before it, through a window of the element type's size; no marshal statement assigns a field
     that Unmarshal takes from the receiver (`recvFields`); an integer emitted iff non-zero (`if c.F != 0 { … }`) against
-    `if WordCount == k { guard; read; advance }` only as the last parameter slot behind fixed-width slots, `k` being the
-    word count the block has with it and not the one it has without (`optTrailing`). -/
+    `c.F = 0; if WordCount == k { guard; read; advance }` only as the last parameter slot behind fixed-width slots, `k`
+    being the word count the block has with it and not the one it has without (`optTrailing`). -/
 def MirrorLoops (c : Cmd) : Bool :=
-  match bodyU c with
+  match bodyN c with
   | none => false
   | some body =>
     match layoutML c.marshal, layoutUL body with
@@ -171,10 +177,10 @@ def MirrorLoops (c : Cmd) : Bool :=
       okUL (!(u.filter (·.blk == .P)).isEmpty) (!(u.filter (·.blk == .D)).isEmpty) {} (if c.isAndX then [andxField] else []) body &&
       (c.fields.map (·.1)).all (fun f => (u.map Slot.field).contains f) &&
       -- a field taken from the receiver is not the AndX block, and Marshal leaves it alone
-      (recvFields body).all (fun p => p.1 != andxField && c.marshal.all (fun s => s.modifies != some p.1)) &&
+      (recvFields body).all (fun f => f != andxField && c.marshal.all (fun s => s.modifies != some f)) &&
       -- an optional integer only as the last parameter slot behind fixed-width slots, under the right word count
       optTrailing c.isAndX (u.filter (·.blk == .P)) 0 &&
-      (u.filter (·.blk == .D)).all (fun sl => match sl with | .opt .. => false | _ => true)
+      (u.filter (·.blk == .D)).all (fun sl => match sl with | .opt .. | .optInts .. => false | _ => true)
     | _, _ => false
 
 /-- `Reencodable` over the loop fragment's marshal layout -/
